@@ -33,6 +33,7 @@ CONSTANTS
  Goals = {1, 2, 3}
  Origins = {%(origins)s}
  AdvKinds = {}
+ NodeRank <- RankT
  AdvSrcs = {"adv"}
  TrackWire = TRUE
  UseIds = TRUE
@@ -187,8 +188,10 @@ def random_run(topology, seed, profile, steps, settings=None, max_circuits=3, go
                 genuine = [d for d in w.net.wire if len(d.data) > 23 and d.data[22] == 8 and d.note != "injected"]
                 if genuine and rng.random() < 0.4:
                     g = rng.choice(genuine)
-                    w.forge_destroy(rng.choice(list(names) + ["adv"]), rng.choice(names), w.describe(g)["cid"],
-                                    replay_seq=g.seq)
+                    # a replayed genuine destroy is sent with the (spoofed) source address of its signer: the community
+                    # layer re-points a verified peer's address to the source of any validly signed datagram, which the
+                    # tunnel spec does not model (see DESIGN.md, observations)
+                    w.forge_destroy(w.describe(g)["signer"], rng.choice(names), w.describe(g)["cid"], replay_seq=g.seq)
                 else:
                     w.forge_destroy(rng.choice(list(names) + ["adv"]), rng.choice(names), rng.choice(known))
             elif name == "vanish":
